@@ -1,13 +1,4 @@
 package main
 
-import (
-	"fmt"
-
-	"verif/sim/simcore"
-)
-
-func (ep *episode) prepareEval(jr *jobRun) error { return fmt.Errorf("eval family not built yet") }
-func cmdSelftest(args []string) int              { return 2 }
-func cmdExpand(args []string) int                { return 2 }
-
-func planC10(tier string, root *simcore.RNG) *plan { return &plan{prop: "C10", level: "exploration"} }
+func cmdSelftest(args []string) int { return 2 }
+func cmdExpand(args []string) int   { return 2 }
